@@ -130,6 +130,10 @@ def run(ctx):
         raise AnalysisError(f"only {total} weight stores found over all propagators (expected >= 20)")
     ctx.rep.count("weight_stores", total)
     killed(ctx)
+    from ..rules import common
+    okp, msgp, fip = common.block_estimator_population(p)
+    ctx.ob("GUARD-1", "sampler._block_scan: the shift's block energy is normalised by the plain sum of the stored weights "
+           "(finite whenever a walker is alive)", okp, msgp, fip)
     ctx.rep.trust("prop_data['e_estimate'], ['pop_control_ene_shift'], ['weights'] are real (they are "
                   "computed from jnp.real energies and real weights by init_prop_data and the sampler)")
 
